@@ -106,6 +106,45 @@ func C14(ctx *core.Ctx) {
 			procFns = append(procFns, fn)
 		}
 	}
+	// writing helpers of the processor runtime that are plain functions: unexported, handed
+	// the output protocol, and called from the processor methods only (e.g. a shared writeMessage)
+	{
+		isProc := map[*ssa.Function]bool{}
+		for _, f := range procFns {
+			isProc[f] = true
+		}
+		for round := 0; round < 2; round++ {
+			for _, fn := range r.Fns {
+				if isProc[fn] || fn.Signature.Recv() != nil || fn.Object() == nil || fn.Object().Exported() || fn.Parent() != nil {
+					continue
+				}
+				hasProto := false
+				for _, p := range fn.Params {
+					if ssax.TypeNamed(p.Type(), "", "FProtocol") {
+						hasProto = true
+					}
+				}
+				if !hasProto {
+					continue
+				}
+				callers, all := 0, true
+				for _, g := range r.Fns {
+					for _, c := range ssax.Calls(g) {
+						if c.Static == fn {
+							callers++
+							if !isProc[g] {
+								all = false
+							}
+						}
+					}
+				}
+				if callers > 0 && all {
+					isProc[fn] = true
+					procFns = append(procFns, fn)
+				}
+			}
+		}
+	}
 	for _, fn := range procFns {
 		entry := ssax.LockSet{}
 		if held[fn] {
@@ -228,7 +267,7 @@ func C14(ctx *core.Ctx) {
 						return false
 					}
 					// (ctx, name, EXCEPTION=3, seq)
-					k, isC := ssax.ConstInt(c.Common.Args[2])
+					k, isC := ssax.ConstInt(argThrough(proc, c.Common.Args[2]))
 					return isC && k == 3
 				}
 				isBody := func(in ssa.Instruction) bool {
@@ -241,7 +280,7 @@ func C14(ctx *core.Ctx) {
 						return false
 					}
 					// receiver is NewTApplicationException(UNKNOWN_METHOD, …)
-					recv := c.Args()[0]
+					recv := argThrough(proc, c.Args()[0])
 					k, isEx := ExceptionKind(recv, "thrift.NewTApplicationException")
 					return isEx && k == constInt(r, "APPLICATION_EXCEPTION_UNKNOWN_METHOD")
 				}
@@ -307,7 +346,7 @@ func C14(ctx *core.Ctx) {
 			if o != "WriteMessageBegin" || !opA[p] {
 				return false
 			}
-			k, isC := ssax.ConstInt(c.Common.Args[2])
+			k, isC := ssax.ConstInt(argThrough(sr, c.Common.Args[2]))
 			return isC && k == 2 // REPLY
 		}
 		steps := []seqStep{{"WriteResponseHeader(fctx)", isHdr}, {"WriteMessageBegin(REPLY)", isBegin}, {"result.Write", protoStep(op, "body.Write")},
@@ -355,13 +394,18 @@ func C14(ctx *core.Ctx) {
 				fctx = p
 			}
 		}
+		opA := valueAliases(op) // the same objects as seen from an extracted writing helper
+		fctxA := map[ssa.Value]bool{}
+		if fctx != nil {
+			fctxA = valueAliases(fctx)
+		}
 		isHdr := func(in ssa.Instruction) bool {
 			c, ok := ssax.AsCall(in)
 			if !ok {
 				return false
 			}
 			p, o := protoOp(c)
-			return o == "WriteResponseHeader" && p == ssa.Value(op) && fctx != nil && ssax.Strip(c.Common.Args[1]) == ssa.Value(fctx)
+			return o == "WriteResponseHeader" && opA[p] && fctx != nil && fctxA[ssax.Strip(c.Common.Args[1])]
 		}
 		isBegin := func(in ssa.Instruction) bool {
 			c, ok := ssax.AsCall(in)
@@ -369,10 +413,10 @@ func C14(ctx *core.Ctx) {
 				return false
 			}
 			p, o := protoOp(c)
-			if o != "WriteMessageBegin" || p != ssa.Value(op) {
+			if o != "WriteMessageBegin" || !opA[p] {
 				return false
 			}
-			k, isC := ssax.ConstInt(c.Common.Args[2])
+			k, isC := ssax.ConstInt(argThrough(se, c.Common.Args[2]))
 			return isC && k == 3
 		}
 		steps := []seqStep{{"WriteResponseHeader(fctx)", isHdr}, {"WriteMessageBegin(EXCEPTION)", isBegin}, {"exception.Write", protoStep(op, "body.Write")},
@@ -381,40 +425,7 @@ func C14(ctx *core.Ctx) {
 	}
 
 	// ---- R5 ---------------------------------------------------------------------
-	for _, fn := range r.Fns {
-		for _, c := range ssax.Calls(fn) {
-			if c.Static == nil || ssax.Name(c.Static) != "(*FProtocolFactory).GetProtocol" {
-				continue
-			}
-			// only server-side per-message sites: functions that call FProcessor.Process
-			isServer := false
-			for _, c2 := range ssax.Calls(fn) {
-				if c2.Method != nil && c2.Method.Name() == "Process" && ssax.TypeNamed(c2.Common.Value.Type(), "", "FProcessor") {
-					isServer = true
-				}
-			}
-			if !isServer || inCycle(c.Instr.(ssa.Instruction)) {
-				continue
-			}
-			// connection-oriented server (accept) builds its protocols once per connection: that is its design
-			tr := ssax.Strip(c.Common.Args[1])
-			fresh := false
-			switch x := tr.(type) {
-			case *ssa.Alloc:
-				fresh = true
-			case *ssa.Call:
-				cc, _ := ssax.AsCall(x)
-				fresh = cc.Static != nil && strings.HasPrefix(cc.Static.Name(), "New")
-				if cc.FullName() == "github.com/apache/thrift/lib/go/thrift.NewStreamTransportR" {
-					fresh = true
-				}
-			case *ssa.Parameter:
-				fresh = true // per-connection transport handed in by the accept loop
-			}
-			ctx.Check(fresh, "C14.R5", ssax.Name(fn)+sprintf(" › protocol transport #%d is per invocation", callOrdinal(fn, c)), r.IPos(c.Instr),
-				"transport allocated in this invocation", "a server handler builds its protocol on a transport that outlives the invocation (field/global): concurrent or successive messages share a buffer")
-		}
-	}
+	perMessageTransports(ctx, r, "C14.R5")
 	// handler closures run concurrently, once per message: they must not write storage captured from the enclosing function
 	hs := httpHandlers(r)
 	for h := range msgHandlers(r) {
@@ -465,4 +476,62 @@ func C14(ctx *core.Ctx) {
 		ctx.Check(ok, "C14.R6", ssax.Name(acc)+" › loop ends only on a transport/processing error", fnPos(r, acc), "Process is called in a loop; returns are on error edges (EOF ⇒ nil)", "the per-connection loop can end after a successfully processed request")
 	}
 	_ = types.Typ
+}
+
+// perMessageTransports: every server-side message handler (a function that
+// calls FProcessor.Process outside a loop of its own) builds its protocols on
+// transports allocated for that message.
+func perMessageTransports(ctx *core.Ctx, r *RT, rule string) {
+	for _, fn := range r.Fns {
+		for _, c := range ssax.Calls(fn) {
+			if c.Static == nil || ssax.Name(c.Static) != "(*FProtocolFactory).GetProtocol" {
+				continue
+			}
+			// only server-side per-message sites: functions that call FProcessor.Process
+			isServer := false
+			for _, c2 := range ssax.Calls(fn) {
+				if c2.Method != nil && c2.Method.Name() == "Process" && ssax.TypeNamed(c2.Common.Value.Type(), "", "FProcessor") {
+					isServer = true
+				}
+			}
+			if !isServer || inCycle(c.Instr.(ssa.Instruction)) {
+				continue
+			}
+			// connection-oriented server (accept) builds its protocols once per connection: that is its design
+			tr := ssax.Strip(c.Common.Args[1])
+			fresh := false
+			detail := "a server handler builds its protocol on a transport that outlives the invocation (field/global): concurrent or successive messages share a buffer"
+			switch x := tr.(type) {
+			case *ssa.Alloc:
+				fresh = true
+			case *ssa.Call:
+				cc, _ := ssax.AsCall(x)
+				fresh = cc.Static != nil && strings.HasPrefix(cc.Static.Name(), "New")
+				if cc.FullName() == "github.com/apache/thrift/lib/go/thrift.NewStreamTransportR" {
+					fresh = true
+				}
+			case *ssa.Parameter:
+				fresh = true // per-connection transport handed in by the accept loop
+				// … but not a buffer its caller allocates once and hands to every iteration of its message loop
+				for pi, q := range fn.Params {
+					if q != x {
+						continue
+					}
+					for _, caller := range r.Fns {
+						for _, c3 := range ssax.Calls(caller) {
+							if c3.Static != fn || pi >= len(c3.Common.Args) || !inCycle(c3.Instr.(ssa.Instruction)) {
+								continue
+							}
+							if def, isIn := ssax.Strip(c3.Common.Args[pi]).(ssa.Instruction); isIn && def.Parent() == caller && !inCycle(def) {
+								fresh = false
+								detail = "the transport is allocated once by " + ssax.Name(caller) + " and handed to every iteration of its message loop: what one message leaves behind in it (unread input after a request that was not fully consumed, an unpublished reply) is seen by the next message on that worker"
+							}
+						}
+					}
+				}
+			}
+			ctx.Check(fresh, rule, ssax.Name(fn)+sprintf(" › protocol transport #%d is per invocation", callOrdinal(fn, c)), r.IPos(c.Instr),
+				"transport allocated in this invocation", detail)
+		}
+	}
 }
